@@ -103,7 +103,7 @@ def exc(e):
         return 'NotFound'
     if isinstance(e, dberrors.DuplicateEntryError):
         return 'Duplicate'
-    if isinstance(e, dberrors.OperationalError) and 'locked' in str(e):
+    if isinstance(e, (dberrors.OperationalError, sqlite3.OperationalError)) and 'locked' in str(e):
         return 'Locked'
     if isinstance(e, AssertionError):
         return 'Assert'
@@ -114,7 +114,7 @@ def fmt_rows(rows):
     return ''.join(' %d=%s' % (k, ','.join(str(x) for x in rows[k])) for k in sorted(rows))
 
 
-TX_KINDS = ('commit', 'rollback', 'begin')
+TX_KINDS = ('commit', 'rollback', 'begin', 'commit_blocked')
 
 
 class World:
@@ -149,6 +149,8 @@ class World:
         self.lines = ['init %d' % (1 if dc else 0)]
         self.impl = ['ok']
         self.fails = []            # (key or None, what, detail)
+        self.pending_lock = False
+        self.raw_now = {}
         self.raw_now = self.raw_rows()
         self.view_now = self.tx_view()
         self.ncommit = 0
@@ -175,9 +177,16 @@ class World:
     # ---------------------------------------------------------------- observers
     def raw_rows(self):
         out = {}
-        for c, cls in enumerate(self.classes):
-            for row in self.raw.execute('SELECT id, n, m FROM %s' % cls.sqlmeta.table).fetchall():
-                out[c * 1000 + row[0]] = tuple(row[1:])
+        try:
+            for c, cls in enumerate(self.classes):
+                for row in self.raw.execute('SELECT id, n, m FROM %s' % cls.sqlmeta.table).fetchall():
+                    out[c * 1000 + row[0]] = tuple(row[1:])
+        except sqlite3.OperationalError:
+            # after a refused COMMIT the writer keeps SQLite's PENDING lock: no new reader gets in until the transaction
+            # is committed or rolled back; the committed rows cannot have changed meanwhile
+            self.pending_lock = True
+            return dict(self.raw_now)
+        self.pending_lock = False
         return out
 
     def tx_view(self):
@@ -276,7 +285,7 @@ class World:
         raw_before = self.raw_now
         view_before = self.view_now
         pre = {}
-        if kind == 'commit' and not self.obsolete:
+        if kind in ('commit', 'commit_blocked') and not self.obsolete:
             for j in self.alive('P'):
                 k = self.keyof['P'][j]
                 pre[j] = (self.att['P'][j],
@@ -291,6 +300,10 @@ class World:
         self.explicit_cull = None
         self.allocs = []
         line, ans, cached_answer = self.execute(op)
+        if kind == 'commit_blocked':
+            # a COMMIT attempted while another connection holds a read lock: refused by the engine (then nothing may have
+            # happened and the transaction stays pending) or, with nothing to write, an ordinary commit
+            kind = 'commit' if ans == 'ok' else 'commit_refused'
         self.reference_update(op, kind, sd, ans, was_obsolete)
         extra = self.cull_lines(cs)
         for l in extra:
@@ -391,6 +404,15 @@ class World:
                 line = 'commit %d' % (1 if op[1] else 0)
                 self.t.commit(close=bool(op[1]))
                 return line, 'ok', False
+            if kind == 'commit_blocked':
+                line = None                          # a refused commit is no step of the model: nothing may change
+                self.raw.execute('BEGIN')
+                try:
+                    self.raw.execute('SELECT count(*) FROM %s' % self.classes[0].sqlmeta.table).fetchall()
+                    self.t.commit(close=bool(op[1]))
+                finally:
+                    self.raw.execute('ROLLBACK')
+                return 'commit %d' % (1 if op[1] else 0), 'ok', False
             if kind == 'rollback':
                 self.t.rollback()
                 return 'rollback', 'ok', False
@@ -453,6 +475,12 @@ class World:
             self.obsolete = False
         if kind == 'destroy' and sd == 'T':
             self.txdel.add(self.keyof['T'][op[2]])
+        if kind == 'commit_refused':
+            if ans != 'Locked':
+                self.fail(None, 'a commit refused by the engine answered %s' % ans, 'commit-refused-answer')
+            if raw != raw_before or view != view_before:
+                self.fail(None, 'a refused commit changed the rows: committed %s -> %s, transaction view %s -> %s'
+                          % (fmt_rows(raw_before), fmt_rows(raw), fmt_rows(view_before or {}), fmt_rows(view or {})), 'commit-refused-effect')
         # --- a finished transaction refuses use; an active one answers
         if self.view_error is not None:
             self.fail(None, 'a query through the transaction fails with %s instead of being answered or refused (AssertionError)'
@@ -585,6 +613,9 @@ def gen_history(rng, length, dc):
             op = gen_op(rng, w)
             ops.append(op)
             w.do(op)
+        if w.pending_lock:
+            ops.append(('commit', 0))
+            w.do(('commit', 0))
         for op in sweep_ops(w):
             ops.append(op)
             w.do(op)
@@ -610,6 +641,8 @@ def gen_op(rng, w):
     ref = w.raw_now if sd == 'P' or w.view_now is None else w.view_now
     existing = sorted(ref)
     live = w.live(sd)
+    if w.pending_lock:
+        return ('commit', 0) if rng.random() < 0.7 else ('rollback',)
     if w.obsolete and rng.random() < 0.45:
         return ('begin',)
     if r < 0.13 or not ref:
@@ -650,6 +683,8 @@ def gen_op(rng, w):
     if r < 0.87:
         return ('cull', sd, rng.randrange(NCLS))
     if r < 0.95:
+        if tx_dirty and rng.random() < 0.25:
+            return ('commit_blocked', 1 if rng.random() < 0.25 else 0)
         return ('commit', 1 if rng.random() < 0.25 else 0)
     if r < 0.99:
         return ('rollback',)
@@ -700,6 +735,10 @@ CORPUS = [
     ('a dead weakref entry of the same id does not hide the new instance from rollback (tryGet falls through)', True,
      [('create', 'P', 1, 1, 0), ('get', 'T', 1, False), ('cull', 'T', 0), ('drop', 'T', 0), ('destroy', 'P', 0),
       ('create', 'T', 1, 5, 5), ('rollback',), ('begin',), ('read', 'T', 1, 0)], None),
+    ('commit refused once by the engine (a reader holds its lock), then repeated: nothing is forgotten', True,
+     [('create', 'P', 1, 1, 0), ('create', 'P', 2, 2, 0), ('get', 'T', 1, False), ('get', 'T', 2, False), ('destroy', 'T', 0),
+      ('set', 'T', 1, 0, 9), ('commit_blocked', 0), ('read', 'P', 0, 0), ('commit', 0), ('read', 'P', 0, 0), ('read', 'P', 1, 0),
+      ('get', 'P', 1, False)], None),
     ('deleted in tx, commit -> NotFound on parent', True,
      [('create', 'P', 1, 1, 0), ('create', 'P', 1001, 4, 4), ('get', 'T', 1, False), ('destroy', 'T', 0), ('read', 'P', 0, 0),
       ('get', 'P', 1, False), ('commit', 0), ('read', 'P', 0, 0), ('get', 'P', 1, False), ('select', 'P', 0), ('select', 'T', 0)], None),
